@@ -225,7 +225,7 @@ func VPH_augment() {
 		inc bool
 		p   string
 	}
-	groups := []string{"foo", "foobar", "Foo", "foo.sub", "tags"}
+	groups := []string{"foo", "foobar", "Foo", "foo.sub", "tags", ""} // "" = an entry directly under [refgroup]
 	rules := map[string][]rule{}
 	names := map[string]string{}
 	nameSet := map[string]bool{}
@@ -235,6 +235,11 @@ func VPH_augment() {
 		kind := vp_Choice("kind", 4)
 		val := vpPrefixMenu[vp_Choice("value", len(vpPrefixMenu))]
 		key := []string{"include", "exclude", "name", "bogus"}[kind]
+		if grp == "" {
+			// `[refgroup] include = ...` names no group: it must not reach any group
+			cfg.entries = append(cfg.entries, git.ConfigEntry{Key: "refgroup." + key, Value: val})
+			continue
+		}
 		cfg.entries = append(cfg.entries, git.ConfigEntry{Key: "refgroup." + grp + "." + key, Value: val})
 		seen[grp] = true
 		switch kind {
